@@ -17,8 +17,8 @@ This private submodule is *not* intended for importation by downstream callers.
 from ast import PyCF_ONLY_AST
 from beartype.claw._ast.clawastmain import BeartypeNodeTransformer
 from beartype.claw._importlib.clawimpcache import (  # type: ignore[attr-defined]
-    cache_from_source_beartype,
     cache_from_source_original,
+    make_cache_from_source_beartype,
 )
 from beartype.roar import BeartypeClawImportAstException
 from beartype._conf.confmain import BeartypeConf
@@ -488,7 +488,8 @@ class BeartypeSourceFileLoader(SourceFileLoader):
         #
         # Note that @agronholm (Alex Grönholm) claims that "the import lock
         # should make this monkey patch safe." We're trusting you here, man!
-        _bootstrap_external.cache_from_source = cache_from_source_beartype
+        _bootstrap_external.cache_from_source = (
+            make_cache_from_source_beartype(conf))
 
         # Attempt to defer to the superclass method.
         try:
